@@ -404,6 +404,7 @@ def r203(ctx, classes):
 
 
 def run(ctx):
+    ctx.rule("R-20.6", "no `for` variable of the order-parameter code is read after its loop has ended", floor=2)
     ctx.rule("R-20.1", "calculate() / calculate_order() / pbc helper never modify the system or arrays aliasing it (NumPy view/copy table)", floor=8)
     ctx.rule("R-20.2", "every box handed to pbc_dist_coordinate is system.box[:3]", floor=4)
     ctx.rule("R-20.3", "velocity dependence declared iff calculate reads system.vel; Path.reverse recomputes for velocity-dependent parameters", floor=6)
@@ -417,9 +418,12 @@ def run(ctx):
     ctx.attempt(r203, ctx, classes)
     ctx.attempt(r204, ctx, classes)
     ctx.attempt(r205, ctx)
+    from .shared import stale_loop_variable
+    ctx.attempt(stale_loop_variable, ctx, "R-20.6", [ORDERP], None, " (another atom / component than intended enters the order parameter)")
 
 
 VARIANTS = [
+    B("c20-puckering-center-after-loop", ORDERP, "        for i in range(6):\n            pos[i, :] -= center", "        for i in range(6):\n            pass\n        pos[i, :] -= center", "R-20.6", control=True),
     B("c20-puckering-slice-view", ORDERP, "        pos = system.pos[list(self.index)]", "        pos = system.pos[self.index[0] : self.index[0] + 6]", "R-20.1", control=True),
     B("c20-dihedral-inplace-on-view", ORDERP, "        pos = system.pos\n        vector1 = pos[self.index[0]] - pos[self.index[1]]", "        pos = system.pos\n        pos -= pos[self.index[0]]\n        vector1 = pos[self.index[0]] - pos[self.index[1]]", "R-20.1"),
     B("c20-distance-row-store", ORDERP, "        delta = system.pos[self.index[1]] - system.pos[self.index[0]]\n        if self.periodic and system.box is not None:\n            box = np.array(system.box[:3])\n            delta = pbc_dist_coordinate(delta, box)\n        lamb = np.sqrt(np.dot(delta, delta))\n        return [lamb]", "        delta = system.pos[self.index[1]]\n        delta -= system.pos[self.index[0]]\n        if self.periodic and system.box is not None:\n            box = np.array(system.box[:3])\n            delta = pbc_dist_coordinate(delta, box)\n        lamb = np.sqrt(np.dot(delta, delta))\n        return [lamb]", "R-20.1"),
